@@ -196,7 +196,17 @@ pub fn run(thorough: bool, seed: u64, driver: &str, rep: &mut Report) {
                 r.comment = None;
             }, true, 0);
             let text = t.newick();
-            files.push(tmp(&dir, &mut k, &text));
+            // input files are named the way people name them: inner dots, other or no extensions, the same stem twice
+            k += 1;
+            let fname = match (round + files.len()) % 5 {
+                0 => format!("{dir}/gene.v{k}.nwk"),
+                1 => format!("{dir}/gene.v{k}.tre"),
+                2 => format!("{dir}/sample{k}"),
+                3 => format!("{dir}/run.{k}.final.newick"),
+                _ => format!("{dir}/t{k}.nwk"),
+            };
+            std::fs::write(&fname, &text).unwrap();
+            files.push(fname);
             texts.push(text);
         }
         if files.len() < 2 { continue; }
@@ -312,6 +322,12 @@ pub fn run(thorough: bool, seed: u64, driver: &str, rep: &mut Report) {
             // a name that starts with a dash is an OPTION to any command line (exit status 2 from the argument parser, by
             // convention — not a question the property asks): such names are kept away from the argument lists
             t.for_each_mut(&mut |x, _, _| if let Some(n) = x.name.as_mut() { if n.starts_with('-') { n.insert(0, 'x'); } }, true, 0);
+        }
+        // quoted labels holding a comma or a blank: ONE argument on the command line is ONE name, whatever it contains
+        if ti % 8 == 1 {
+            let mut n = 0;
+            t.for_each_mut(&mut |x, _, _| if x.kids.is_empty() && n < 3 { if let Some(nm) = x.name.as_mut() { *nm = if n % 2 == 0 { format!("\"{nm},x\"") } else { format!("\"two words {nm}\"") }; n += 1; } }, true, 0);
+            rep.count("trees_with_quoted_labels_holding_commas_or_blanks");
         }
         let text = t.newick();
         let file = tmp(&dir, &mut k, &text);
